@@ -234,14 +234,15 @@ Proof. exact shutdown_is_terminal. Qed.
 Print Assumptions C14_shutdown_is_terminal.
 
 (* a sequence on which implementation and model agree satisfies every clause of the judge that speaks about the
-   pool; the full specification implies those clauses *)
+   pool (start only on idle/run and never-shut-down instances, failed Create leaves Unallocated unchanged, a sync
+   keeps what has appeared since its list request was issued); the full specification implies those clauses *)
 Theorem C14_wp_model_satisfies_pool_clauses : forall cs,
-  fresh_ids empty_obs (wc_steps cs) -> model_b cs = true -> pool_clauses [] empty_obs (wc_steps cs).
+  fresh_ids empty_obs (wc_steps cs) -> model_b cs = true -> pool_clauses [] None empty_obs (wc_steps cs).
 Proof. exact wp_model_satisfies_pool_clauses. Qed.
 Print Assumptions C14_wp_model_satisfies_pool_clauses.
 
 Theorem C14_wp_spec_implies_pool_clauses : forall steps shut disc sb prev,
-  spec_P shut disc sb prev steps -> pool_clauses shut prev steps.
+  spec_P shut disc sb prev steps -> pool_clauses shut sb prev steps.
 Proof. exact wp_spec_implies_pool_clauses. Qed.
 Print Assumptions C14_wp_spec_implies_pool_clauses.
 
